@@ -402,6 +402,9 @@ def check_ref(case, ctx):
                 m.cur = DELETED
                 del c.user
             elif op == "read":
+                if m.cur == DELETED and persistent and m.committed[0] != "known":
+                    ctx.info("skipped:read-of-deleted-reference")  # the lazy loader re-populates it from the foreign key: not a history question
+                    continue
                 if m.cur == UNTOUCHED and (m.committed == UNKNOWN or (m.committed == ABSENT and persistent)):
                     m.committed = ("known", dbv)  # lazy load puts the value (None for a flushed object that never had one) into __dict__
                 expv =(m.committed[1] if m.committed[0] == "known" else None) if m.cur == UNTOUCHED else (None if m.cur == DELETED else m.cur[1])
@@ -436,7 +439,7 @@ def check_ref(case, ctx):
                 elif m.cur == DELETED:
                     # persistent: the flush wrote NULL into the (loaded) foreign key, a lazy load answers None;
                     # pending: neither the reference nor the foreign key attribute ever got a value
-                    m.committed = UNKNOWN if persistent else ABSENT
+                    m.committed = UNKNOWN if (persistent and m.committed != ABSENT) else ABSENT
                 m.cur = UNTOUCHED
                 persistent = True
                 if op == "commit":
